@@ -6,6 +6,7 @@ package main
 import (
 	"go/token"
 	"go/types"
+	"strings"
 
 	"golang.org/x/tools/go/ssa"
 )
@@ -481,5 +482,186 @@ func ruleMakeCapAny(c *Ctx, files func(string) bool) *RuleResult {
 			}
 		}
 	}
+	return r
+}
+
+// ruleMakeSize: make panics on a negative length or capacity. Where a size is the difference of two
+// of the function's inputs (an affine expression over integer parameters and the lengths of slice
+// parameters with coefficients of both signs, e.g. n-len(a)), it is proved non-negative under the
+// guards that dominate the make: nothing relates one argument to another unless the code checks it.
+// A size that is a single argument (n, n-2) states the function's domain and is not judged, nor are
+// sizes computed by loops or calls.
+func ruleMakeSize(c *Ctx, files func(string) bool) *RuleResult {
+	r := &RuleResult{Rule: "MAKESIZE", Doc: "a make whose length or capacity is the difference of two of the function's inputs (integer parameters, lengths of slice parameters) is proved non-negative", MinInst: 0}
+	for _, fn := range c.Funcs {
+		if fn.Synthetic != "" || fn.Blocks == nil || !files(c.Fset.Position(fn.Pos()).Filename) {
+			continue
+		}
+		isParam := map[ssa.Value]bool{}
+		for _, p := range fn.Params {
+			isParam[p] = true
+		}
+		var P *Prover
+		for _, b := range fn.Blocks {
+			for _, in := range b.Instrs {
+				mk, ok := in.(*ssa.MakeSlice)
+				if !ok {
+					continue
+				}
+				sizes := []ssa.Value{mk.Len}
+				if mk.Cap != mk.Len {
+					sizes = append(sizes, mk.Cap)
+				}
+				for _, sz := range sizes {
+					if _, isK := constInt(sz); isK {
+						continue
+					}
+					if P == nil {
+						P = NewProver(c, fn)
+					}
+					p := P.poly(sz)
+					affine, direct, nInt := true, true, 0
+					for m := range p {
+						if strings.Contains(m, "*") {
+							affine = false
+						}
+					}
+					P.atomsOf(p, func(a *Atom) {
+						switch {
+						case a.kind == aVal && isParam[a.val]:
+							nInt++
+						case a.kind == aLen && isParam[a.val]:
+						default:
+							direct = false
+						}
+					})
+					pos, neg := 0, 0
+					for m, k := range p {
+						if m == "" {
+							continue
+						}
+						if k > 0 {
+							pos++
+						} else {
+							neg++
+						}
+					}
+					if !affine || !direct || nInt == 0 || pos == 0 || neg == 0 {
+						// lengths alone are never negative; a size that is one argument (n, n-2) states
+						// the function's domain; sizes computed by loops or calls are not this rule's.
+						continue
+					}
+					src := c.srcAt(mk.Pos())
+					if src == "" {
+						src = valName(mk)
+					}
+					r.inst("%s: %s: size %s", c.short(fn), src, P.showTerm(p))
+					ok2 := P.Prove(p.scale(-1), b)
+					r.oblig(ok2)
+					if !ok2 {
+						r.find(c.short(fn)+":"+src+" size may be negative", c.instrPos(mk), "%s: %s: the size %s is written in terms of the arguments and is not proved non-negative: make panics for the arguments where it is negative", c.short(fn), src, P.showTerm(p))
+					}
+				}
+			}
+		}
+	}
+	return r
+}
+
+// rulePartial: the partial operations of a generator under the contract "integer parameters are
+// non-negative" (the smallest sizes are accepted arguments): every make size written in terms of the
+// parameters is proved non-negative, and every integer division or remainder by a non-constant is
+// proved to have a non-zero divisor, under the guards and loop conditions that dominate it. Both
+// panic otherwise (makeslice: len out of range; integer divide by zero).
+func rulePartial(c *Ctx, files func(string) bool, exportedOnly bool) *RuleResult {
+	r := &RuleResult{Rule: "PARTIAL", Doc: "under non-negative integer parameters, every make size written in terms of the parameters is proved non-negative and every non-constant divisor is proved non-zero", MinInst: 0}
+	nf := 0
+	for _, fn := range c.Funcs {
+		if fn.Synthetic != "" || fn.Blocks == nil || fn.Parent() != nil || !files(c.Fset.Position(fn.Pos()).Filename) {
+			continue
+		}
+		if o := fn.Object(); exportedOnly && (o == nil || !o.Exported() || fn.Signature.Recv() != nil) {
+			continue
+		}
+		nf++
+		isParam := map[ssa.Value]bool{}
+		for _, p := range fn.Params {
+			isParam[p] = true
+		}
+		var P *Prover
+		prover := func() *Prover {
+			if P == nil {
+				P = NewProver(c, fn)
+				for _, p := range fn.Params {
+					if isInt(p.Type()) {
+						P.global = append(P.global, P.poly(p).scale(-1))
+					}
+				}
+			}
+			return P
+		}
+		for _, b := range fn.Blocks {
+			for _, in := range b.Instrs {
+				switch x := in.(type) {
+				case *ssa.MakeSlice:
+					sizes := []ssa.Value{x.Len}
+					if x.Cap != x.Len {
+						sizes = append(sizes, x.Cap)
+					}
+					for _, sz := range sizes {
+						if _, isK := constInt(sz); isK {
+							continue
+						}
+						P := prover()
+						p := P.poly(sz)
+						direct, nInt := true, 0
+						P.atomsOf(p, func(a *Atom) {
+							switch {
+							case a.kind == aVal && isParam[a.val]:
+								nInt++
+							case a.kind == aLen && isParam[a.val]:
+							default:
+								direct = false
+							}
+						})
+						if !direct || nInt == 0 {
+							continue
+						}
+						src := c.srcAt(x.Pos())
+						if src == "" {
+							src = valName(x)
+						}
+						r.inst("%s: %s: size %s", c.short(fn), src, P.showTerm(p))
+						ok := P.Prove(p.scale(-1), b)
+						r.oblig(ok)
+						if !ok {
+							r.find(c.short(fn)+":"+src+" size may be negative", c.instrPos(x), "%s: %s: the size %s is not proved non-negative for every non-negative argument: make panics for the smallest sizes", c.short(fn), src, P.showTerm(p))
+						}
+					}
+				case *ssa.BinOp:
+					if (x.Op != token.QUO && x.Op != token.REM) || !isInt(x.Type()) {
+						continue
+					}
+					if _, isK := constInt(x.Y); isK {
+						continue
+					}
+					P := prover()
+					d := P.poly(x.Y)
+					src := c.srcAt(x.Pos())
+					if src == "" {
+						src = valName(x)
+					}
+					r.inst("%s: %s: divisor %s", c.short(fn), src, P.showTerm(d))
+					// non-zero: positive or negative
+					ok := P.Prove(constP(1).add(d, -1), b) || P.Prove(d.add(constP(1), 1), b)
+					r.oblig(ok)
+					if !ok {
+						r.find(c.short(fn)+":"+src+" divisor may be zero", c.instrPos(x), "%s: %s: the divisor %s is not proved non-zero: integer divide by zero for the arguments where it is", c.short(fn), src, P.showTerm(d))
+					}
+				}
+			}
+		}
+	}
+	r.inst("%d functions scanned for make sizes and divisors", nf)
 	return r
 }
